@@ -9,6 +9,7 @@
 import Cobweb.Proofs.Kill
 import Cobweb.Theorems.C01
 import Cobweb.Proofs.DataCount
+import Cobweb.Proofs.SysLive
 
 namespace Cobweb.C05
 
@@ -110,6 +111,66 @@ theorem release_leaves_no_reader {p : Prog} {h : Hist} {s : St} (hr : Reach p h 
     (hal : s.alive d = true) (hd : s.data d = some x) (hk : x.kind ≠ .sys) (hlast : x.cnt = 1) : readers d s = 1 := by
   have := counter_exact hr d x hal hd hk
   omega
+
+
+/-! ### system events (`Proofs/SysLive.lean`) -/
+
+/-- **A system event's data always has a reader still to come**: the queued `sysEvent` command, its prepared entry in the
+    system-event tracker, or the run that is reading right now (whose clean-up despawns the data). Along every
+    execution. -/
+theorem sys_event_data_has_reader {p : Prog} {h : Hist} {s : St} (hr : Reach p h ({} : St) s) (d : Nat) (x : DataEnt)
+    (hd : s.data d = some x) (hk : x.kind = .sys) : hasReader s d :=
+  (sys_reach p h hr).2.2.live d x hd hk
+
+/-- **No system-event data outlives its tree**: at quiescence none is left — its reader's clean-up (or the death of its
+    entity) has released it. With `no_event_data_at_quiescence`: no event data of any kind survives a tree. -/
+theorem no_sys_event_data_at_quiescence {p : Prog} {h : Hist} {s : St} (hr : Reach p h ({} : St) s) (hq : s.stack = [])
+    (d : Nat) (x : DataEnt) (hd : s.data d = some x) : x.kind ≠ .sys := by
+  intro hk
+  obtain ⟨I, _, S⟩ := sys_reach p h hr
+  have hrd := S.live d x hd hk
+  have htop := I.flag.top; rw [hq] at htop
+  have hfl : s.trkSys.reacting = false := by
+    have hi : Fl s = (false, false, false, false) := htop.1
+    simp only [Fl, Prod.mk.injEq] at hi; exact hi.1
+  have hwq : s.wq = [] := htop.2
+  have hprep : s.trkSys.prepared = [] := by
+    have hb : s.buffered = [] := by
+      cases hb : s.buffered with
+      | nil => rfl
+      | cons b bs =>
+        have := I.ctl.buffered b (by rw [hb]; simp)
+        rw [hq] at this; cases this
+    have := I.pend .sys
+    simp only [allPending, hb, hq, stackPending, List.flatMap_nil, List.append_nil, pend_nil] at this
+    have := List.Perm.eq_nil this
+    simpa [prep] using this
+  rcases hrd with ⟨sys, h1⟩ | ⟨h1, _⟩ | ⟨sys, h1⟩
+  · rw [hprep] at h1; cases h1
+  · rw [hfl] at h1; cases h1
+  · simp [allCmds, hwq, hq] at h1
+
+/-- No event data of any kind at quiescence. -/
+theorem no_data_at_quiescence {p : Prog} {h : Hist} {s : St} (hr : Reach p h ({} : St) s) (hq : s.stack = [])
+    (d : Nat) (hal : s.alive d = true) : s.data d = none := by
+  cases hd : s.data d with
+  | none => rfl
+  | some x =>
+    exfalso
+    exact no_sys_event_data_at_quiescence hr hq d x hd (no_event_data_at_quiescence hr hq d x hal hd)
+
+/-- Non-vacuity: a system sends itself nothing; the top level sends it a system event: in the middle of the tree the data
+    entity exists and has a reader, at quiescence it is gone. -/
+def demoProg3 : Prog := fun _ _ _ => none
+def demoHist3 : Hist :=
+  { op := fun t _ => if t < 2 then some .acts else none,
+    act := fun t i _ => match t, i with
+      | 0, 0 => some (.spawnSys 0 false)
+      | 1, 0 => some (.sysEvent 0 0 9)
+      | _, _ => none }
+
+example : (exec demoProg3 demoHist3 16 {}).data 1 ≠ none ∧ (exec demoProg3 demoHist3 100 {}).stack = [] ∧
+    (exec demoProg3 demoHist3 100 {}).data 1 = none := by decide
 
 example : DataInv ({} : St) := data_default
 
